@@ -45,6 +45,22 @@ Example ex_reject_dup_label : sanity_typedefs
        td_mode := Rep |} ] = Ok (Some EDupLabel).
 Proof. reflexivity. Qed.
 
+(* F23 (fixed in /repo a7c3d63; found by the proof of infer_annotation_stable): two structural
+   definitions of different modes tied into one cycle by two aliases.  Inference records `u` as lin
+   although its body `v` is affine; the repaired check rejects the environment. *)
+Definition f23_text : string :=
+  "type w = +{l : u, r : lin /\ lin 1}
+   type u = v
+   type v = +{l : x, r : aff /\ aff 1}
+   type x = w".
+
+Example F23_rejected :
+  wf_obs f23_text =
+  "REJECT:def-mode-mismatch" ^^ tab ^^
+  "type w lin (+ lin (l (N u lin)) (r (up lin lin (1 lin)))) ;; type u lin (N v aff) ;; " ^^
+  "type v aff (+ aff (l (N x aff)) (r (up aff aff (1 aff)))) ;; type x aff (N w lin)".
+Proof. vm_compute. reflexivity. Qed.
+
 (* F15 (known finding): the head annotation `aff` on a shift to `mul` does not survive conversion;
    the converted environment is well-formed although the source violates HeadOK *)
 Example F15_head_annotation_dropped :
